@@ -5,6 +5,7 @@
 //	conv  tie lines executed by the real code and by the Lean model Conv.* (lean/Model/Conv128.lean)
 //	f64   `f64op` lines validating the binary64 model GoSem.F64 against the hardware
 //	glue  implementation-side identity oracle for fmt / encoding/json / yaml.v3 / text / Scan plumbing (no Lean model)
+//	scan  fmt.Scanner entry points: Sscan/Sscanf/Sscanln/Fscan/Fscanf of a token vs the model's fromString of that token
 package main
 
 import (
@@ -277,5 +278,5 @@ func (f64area) Run(line string) string {
 }
 
 func main() {
-	hx.Main(map[string]hx.Area{"conv": conv{}, "f64": f64area{}, "glue": glue{}})
+	hx.Main(map[string]hx.Area{"conv": conv{}, "f64": f64area{}, "glue": glue{}, "scan": scanArea{}})
 }
